@@ -19,7 +19,7 @@ CONFIG = {'assumptions': [
     'section names compared as bytes (ASCII names)',
     '.eh_frame of a file reached through a debug link is not compared with the stripped file (objcopy --only-keep-debug '
     'turns it into NOBITS by construction)']}
-LEVEL = {'text': 'Machine-checked, 28 theorems closed under the global context, universally quantified over the zlib oracle, '
+LEVEL = {'text': 'Machine-checked, 30 theorems closed under the global context, universally quantified over the zlib oracle, '
                  'the loader and the reader of linked files. Specification level: the view handed to DWARFInfo (configuration, 19 '
                  'section slots with content / size / address / relocation section, supplementary view) of ANY abstract file is '
                  'unchanged by gABI compression of any set of plainly stored sections (any reserved word, alignment, offset, following '
@@ -35,7 +35,9 @@ LEVEL = {'text': 'Machine-checked, 28 theorems closed under the global context, 
                  'including the supplementary view [C11_view_two_hop, C11_view_two_hop_altlink, C11_view_two_hop_debugsup]. '
                  'Model level: the transliteration of get_dwarf_info returns a DWARFInfo whose view is the specification\'s debug_view '
                  'and raises exactly when there is none, for every file the model of ELFFile() returns [C11_model_refines_spec], hence '
-                 'the invariance holds of the model [C11_model_view_invariant_gabi/_zgnu, C11_transforms_constructible]; has_dwarf_info = '
+                 'the invariance holds of the model [C11_model_view_invariant_gabi/_zgnu, C11_transforms_constructible]; any sequence of '
+                 'calls on one ELFFile object (state = the cached section name map) answers each call as a fresh object would, with the '
+                 'view of that call\'s own flags [C11_calls_stateless, C11_calls_views]; has_dwarf_info = '
                  'the presence formula [C11_presence_exact(_img)]; bitwise CRC-32 = polynomial division, chunked = whole file; the model '
                  'raises ELFError on CRC mismatch, AssertionError on bad legacy framing, ELFCompressionError when the declared size '
                  'differs from the inflated size in either direction (+ the pre-d25be29 acceptance as a witnessed theorem). '
@@ -1025,9 +1027,13 @@ def h_seq(ctx, kind, a):
         ctx.record(kind, a, impl=got, spec=want, model=None, in_domain=True, nontrivial=True, key='C11/seq-view-differs')
         return
     tbl = yield from _tbl_for([timg] + list((fs or {}).values()))
-    answers = yield [_view_req(timg, fs, rel, fol, bool(ld), tbl) for rel, fol in calls]
-    spec = [canon_spec(s_) for _, s_ in answers]
-    model = [split_model(m_)[0] for m_, _ in answers]
+    fsl = [[k, v] for k, v in sorted((fs or {}).items())]
+    res = yield [_view_req(timg, fs, rel, fol, bool(ld), tbl) for rel, fol in calls] + \
+                [['seq', timg, 4, int(bool(ld)), fsl, tbl, [[rel, fol] for rel, fol in calls]]]
+    answers, run = res[:-1], res[-1]
+    spec = [canon_spec(s_) for _, s_ in answers]          # the stateless view of each call's own flags
+    # model = obj_run (Model/C11Dwarf.v): the calls made one after the other on one object
+    model = [split_model(m_)[0] for m_ in run[1]] if run[0] == 'ok' else ['rejected'] * len(calls)
     ctx.record(kind, a, impl=got, spec=spec, model=model, in_domain=all(x != 'rejected' for x in spec), nontrivial=True,
                key='C11/seq-view-differs')
 
